@@ -34,8 +34,9 @@ class LP(dns.rdata.Rdata):
     def _to_wire(self, file, compress=None, origin=None, canonicalize=False):
         file.write(struct.pack("!H", self.preference))
         # LP is not one of the types listed in RFC 4034 section 6.2, so its name is
-        # not downcased in the DNSSEC canonical form (RFC 3597 section 7).
-        self.fqdn.to_wire(file, compress, origin, False)
+        # not downcased in the DNSSEC canonical form (RFC 3597 section 7), and it
+        # must not be compressed (RFC 6742 section 2.4.3, RFC 3597 section 4).
+        self.fqdn.to_wire(file, None, origin, False)
 
     @classmethod
     def from_wire_parser(cls, rdclass, rdtype, parser, origin=None):
